@@ -4,7 +4,8 @@ and creates its scratch worktree /tmp/seed/Cnn at /repo's current HEAD."""
 import json, subprocess, sys, os
 pid = sys.argv[1]
 n = int(sys.argv[2]) if len(sys.argv) > 2 else 3
-round2 = len(sys.argv) > 3 and sys.argv[3] == "round2"
+round2 = len(sys.argv) > 3 and sys.argv[3] in ("round2", "round3")
+round3 = len(sys.argv) > 3 and sys.argv[3] == "round3"
 p = [json.loads(l) for l in open('/verif/properties.jsonl') if json.loads(l)['id'] == pid][0]
 wt = '/tmp/seed/%s' % pid
 os.makedirs('/tmp/seed', exist_ok=True)
@@ -24,4 +25,6 @@ Task: produce {n} different, independent changes to the library (each as its own
 
 For each change i = 1..{n} write into {wt}-out/<i>/: `patch.diff` (output of `git diff` in the worktree; new files included via `git add -N` first), `demo_test.go` (a Go test file — say in its header comment which directory/package of the worktree it must be placed in — that FAILS with the change applied and PASSES on the unchanged code) and `meta.json` {{"property":"{pid}","summary":"…","needs":"what is required for it to manifest","files":[…],"demo_dir":"<directory relative to the repo root where demo_test.go goes>","demo_cmd":"go test -vet=off -count=1 -run TestSeedDemo… ./<dir>"}}. Verify yourself for each: (a) with the patch applied: `go build ./... && go test -vet=off -count=1 ./...` passes (with your demo test absent) and the demo test fails; (b) without the patch: the demo test passes. Reset the worktree (`git checkout -- . && git clean -fd`) between changes and at the end. Final message: one short paragraph per change (what, why it breaks the property, what it needs to manifest).""" + ("""
 
-Additional guidance for this round: an earlier round already produced the most direct changes (single-operator flips and dropped checks in the central functions). Go for less obvious ones now: glue code around the core (option handling, conversions between packages, caching or memoisation added as an "optimisation", state kept across requests or across steps of one session, plumbing of a value through several layers where one layer drops or re-derives it), rarely used configuration or input combinations, behaviour that differs only at boundaries (empty / single-element / maximal values, first vs later occurrence, the second of two identical things), effects that need two cooperating edits in different files, and refactorings that are correct for the common path but not for an early-exit or error path. Do not use `git stash` (shared between worktrees); toggle patches with `git apply` / `git apply -R` / `git checkout -- .`. Files with `//go:build verif` are test instrumentation: leave them alone. Demonstrations must use bounded time budgets rather than hanging.""" if round2 else ""))
+Additional guidance for this round: an earlier round already produced the most direct changes (single-operator flips and dropped checks in the central functions). Go for less obvious ones now: glue code around the core (option handling, conversions between packages, caching or memoisation added as an "optimisation", state kept across requests or across steps of one session, plumbing of a value through several layers where one layer drops or re-derives it), rarely used configuration or input combinations, behaviour that differs only at boundaries (empty / single-element / maximal values, first vs later occurrence, the second of two identical things), effects that need two cooperating edits in different files, and refactorings that are correct for the common path but not for an early-exit or error path. Do not use `git stash` (shared between worktrees); toggle patches with `git apply` / `git apply -R` / `git checkout -- .`. Files with `//go:build verif` are test instrumentation: leave them alone. Demonstrations must use bounded time budgets rather than hanging.""" if round2 else "") + ("""
+
+Third round: two earlier rounds already covered, across the library: single-operator flips and dropped checks; caches or memos keyed too coarsely across requests (missing variables / features / context in the key); integer-kind truncation and wrap-around (uint64, uint8(rune)); recursion-counter leaks in the parser; reversed list/non-null wrapper chains; a stale context after an init hook; in-place filtering of shared slices; Go-style instead of JSON-style string quoting. Do NOT repeat those kinds. Look elsewhere: error paths and partial failure (what happens to the *rest* when one part fails), ordering and tie-breaking (stable vs unstable, first vs last wins), Unicode and case (normalisation, case-insensitive matching where it must be exact or vice versa), off-by-one exactly at a documented constant or buffer size, interactions between two features that are each tested alone, explicit values vs defaults vs absent, aliasing / shared mutable state *within a single request* (a slice or map reused across siblings, loop-variable capture), time and cancellation, and clean-up paths that run in a different order than set-up.""" if round3 else ""))
